@@ -70,7 +70,7 @@ func catalogue(prop string, kind int) []string {
 		c = append(c, "data", "timeout-height", "timeout-timestamp", "src-port", "src-channel", "dst-port", "dst-channel")
 	}
 	c = append(c, "swap-ends", "sequence",
-		"proof-flip", "proof-trunc", "proof-other-key", "proof-other-packet", "proof-twin", "proof-other-height",
+		"proof-flip", "proof-trunc", "proof-other-key", "proof-keyswap", "proof-other-packet", "proof-twin", "proof-other-height",
 		"proofheight-other", "proofheight-plus1", "proofheight-rev", "signer")
 	if prop == "C05" {
 		c = append(c, "twin-src")
